@@ -1181,6 +1181,21 @@ Feature('1.38 PUT allocations records consumer_type', (1, 38), HIST + '1.38',
         below={400})
 json_feature('1.38 GET allocations shows consumer_type', (1, 38), HIST + '1.38', 'GET',
              '/allocations/' + K(1), lambda j, s: j.get('consumer_type') == 'INSTANCE')
+Feature('1.38 GET allocations reports unknown for a consumer written without a type', (1, 38),
+        HIST + '1.38 ("Older allocations ... are considered to have an unknown consumer_type")',
+        lambda s, v: [('PUT', '/allocations/' + KNEW, alloc_body((1, 37), {P(3): {'VCPU': 1}}),
+                       None, '1.37'),
+                      ('GET', '/allocations/' + KNEW, None, None)],
+        lambda s, v, r: r[0][0] == 204 and ok(r[1]) and
+        r[1][2].get('consumer_type') == 'unknown')
+Feature('1.38 GET /usages groups a consumer written without a type under unknown', (1, 38),
+        HIST + '1.38',
+        lambda s, v: [('PUT', '/allocations/' + KNEW, alloc_body((1, 37), {P(3): {'VCPU': 1}}),
+                       None, '1.37'),
+                      ('GET', '/usages', None, 'project_id=' + PJ9)],
+        lambda s, v, r: r[0][0] == 204 and ok(r[1]) and isinstance(
+            r[1][2]['usages'].get('unknown'), dict) and
+        r[1][2]['usages']['unknown'].get('consumer_count') == 1)
 status_feature('1.38 POST /allocations requires consumer_type', (1, 38), HIST + '1.38',
                'POST', '/allocations',
                body=lambda s, v: {KNEW: _without(
